@@ -131,6 +131,9 @@ impl Socket {
   ///
   /// The `frames` Vec should have MsgFlags::MORE set correctly on all but the last Msg.
   pub async fn send_multipart(&self, frames: Vec<Msg>) -> Result<(), ZmqError> {
+    if frames.len() > FrameBatch::MAX_FRAMES {
+      return Err(FrameBatch::too_many_frames_error());
+    }
     self.inner.send_multipart(FrameBatch::from(frames)).await
   }
 
